@@ -78,7 +78,7 @@ Theorem C15_ng_alloc_partial : forall ro d fail, bytes_ok d ->
          (fallocs (snd (session_flat ro d fail))).
 Proof.
   intros ro d fail Hb.
-  pose proof (session_flat_ok ro d fail Hb) as H. cbv zeta in H. destruct H as (_ & _ & _ & H).
+  pose proof (session_flat_ok ro d fail Hb) as H. cbv zeta in H. destruct H as (_ & _ & _ & H & _).
   unfold allocs_ok, alloc_ok in H. eapply Forall_impl; [|exact H].
   intros [[[a sn] bl] rem]; cbn [fst snd]. tauto.
 Qed.
@@ -97,11 +97,30 @@ Proof.
 Qed.
 Print Assumptions C15_ng_alloc_refuted.
 
-(* "a read error of the underlying stream surfaces as an error": stated, validated by the
-   correspondence run (oracle clause C15:chunking) and the example below, not proved in general *)
-Definition C15_ng_fail_surfaces_statement : Prop := forall ro ev, flat_fail ev = true ->
+(* a read error of the underlying stream surfaces as an error: when the stream ends with a Fail,
+   neither NewNgReader nor the terminal read result is io.EOF or io.ErrUnexpectedEOF (and by
+   C15_ng_chunking the packets returned are those of the bytes delivered before the Fail).  More
+   precisely the class is 3 (an error) or 7 (gzip stream, not modelled); EOF classes arise only
+   when the stream really ended. *)
+Theorem C15_ng_fail_surfaces : forall ro ev, bytes_ok (flat_data ev) -> flat_fail ev = true ->
   let r := fst (session_chunked ro ev) in
   new_class r <> 1 /\ new_class r <> 2 /\ end_class r <> 1 /\ end_class r <> 2.
+Proof.
+  intros ro ev Hb Hf. cbv zeta. rewrite session_chunked_flat.
+  pose proof (session_flat_ok ro (flat_data ev) (flat_fail ev) Hb) as H. cbv zeta in H.
+  destruct H as (_ & _ & _ & _ & H1 & H2). rewrite Hf in *. unfold new_class, end_class, clsok in *.
+  repeat split; intros E; rewrite E in *; intuition congruence || lia.
+Qed.
+Print Assumptions C15_ng_fail_surfaces.
+
+Theorem C15_ng_eof_only_at_end : forall ro ev, bytes_ok (flat_data ev) ->
+  let r := fst (session_chunked ro ev) in
+  (end_class r = 1 \/ end_class r = 2 \/ new_class r = 1 \/ new_class r = 2) -> flat_fail ev = false.
+Proof.
+  intros ro ev Hb. cbv zeta. intros H. destruct (flat_fail ev) eqn:E; [|reflexivity].
+  destruct (C15_ng_fail_surfaces ro ev Hb E) as (A & B & C & D). tauto.
+Qed.
+Print Assumptions C15_ng_eof_only_at_end.
 
 (* non-vacuity: a valid file (section, interface, one packet with the comments "abc" and ""),
    delivered in chunks of uneven sizes and then failing, gives the packet and then an error *)
